@@ -237,6 +237,18 @@ func fullObs(withData bool) []*Op {
 	return l
 }
 
+// the queries that do not go through an account object
+func globalObs() []*Op {
+	l := []*Op{{K: "GetRefund"}, {K: "GetLogs", H: 0}, {K: "GetLogs", H: 1}}
+	for _, a := range addrIDs {
+		l = append(l, &Op{K: "ALHasAddr", A: a})
+		for _, k := range genKeys {
+			l = append(l, &Op{K: "ALHasSlot", A: a, Key: k}, &Op{K: "GetTransient", A: a, Key: k})
+		}
+	}
+	return l
+}
+
 func genMut(r *hx.Rng, exotic bool) *Op {
 	a := pickAddr(r)
 	for {
@@ -639,7 +651,7 @@ func main() {
 	common.SetBlockHeight(10)
 	account.Init()
 	rng := hx.NewRng(a.Seed)
-	res := hx.NewResult("one evaluation = one reverted bracket (recorded queries before Snapshot vs after RevertToSnapshot) or one root comparison (executed+reverted vs reference replay of the surviving operations, per deleteEmptyObjects flag); nontrivial = at least one journalled mutation was executed inside a reverted bracket; distinct by program text")
+	res := hx.NewResult("one evaluation = one reverted bracket (recorded queries before Snapshot vs after RevertToSnapshot), one root comparison (executed+reverted vs reference replay of the surviving operations, per deleteEmptyObjects flag) or one end-of-program comparison of refund/logs/access list/transient storage with that reference replay; nontrivial = at least one journalled mutation was executed inside a reverted bracket; distinct by program text")
 	cs := hx.NewCases(a.Out, "From V.C04 Require Import Model Harness.", "tcase", "check", 60)
 
 	nCases := a.N
@@ -683,7 +695,7 @@ func main() {
 		// on a modified slot); the random program is built around them
 		var inject []*Item
 		delCommit := r.Intn(3) == 0
-		switch r.Intn(14) {
+		switch r.Intn(16) {
 		case 0:
 			x := r.Intn(6)
 			pre = []*Item{{Op: &Op{K: "CreateAccount", A: x}}, {Op: &Op{K: "SetData", A: (x + 1) % 6, Key: 1, V: []byte{3}}}}
@@ -699,6 +711,17 @@ func main() {
 			pre = append(pre, &Item{Op: &Op{K: "SetData", A: x, Key: k, V: []byte{4}}})
 			inject = []*Item{{Op: &Op{K: "SetData", A: x, Key: k, V: []byte{8}}},
 				{Body: []*Item{{Op: &Op{K: "GetCommitted", A: x, Key: k}}}, Rv: true, Obs: []*Op{{K: "GetData", A: x, Key: k}}}}
+		case 3:
+			// the storage-only account of the design: {nonce 0, no code, one slot}; a reverted SetNonce
+			x := r.Intn(6)
+			pre = []*Item{{Op: &Op{K: "SetData", A: x, Key: r.Intn(4), V: []byte{5}}}, {Op: &Op{K: "SetNonce", A: (x + 1) % 6, N: 2}}}
+			inject = []*Item{{Body: []*Item{{Op: &Op{K: "SetNonce", A: x, N: 7}}}, Rv: true, Obs: []*Op{{K: "GetNonce", A: x}}}}
+		case 4:
+			// a committed empty account written inside a reverted bracket
+			x := r.Intn(6)
+			pre = []*Item{{Op: &Op{K: "CreateAccount", A: x}}, {Op: &Op{K: "SetNonce", A: (x + 1) % 6, N: 2}}}
+			delCommit = false
+			inject = []*Item{{Body: []*Item{{Op: &Op{K: "SetNonce", A: x, N: 7}}}, Rv: true, Obs: []*Op{{K: "GetNonce", A: x}, {K: "Exist", A: x}}}}
 		}
 		pc = &execCtx{s: s0, concretise: true}
 		if inject != nil {
@@ -798,6 +821,31 @@ func main() {
 			if del {
 				cx = c2
 			}
+			rc, rp := execute(root0, adb, ref, false)
+			if rp != nil || rc.diverged != "" {
+				res.Violate("C04/reference-replay-diverged", fmt.Sprint(rp, rc.diverged), ptxt)
+				bad = true
+				break
+			}
+			if di == 0 {
+				// continuation: refund counter, logs (with their indices), access list and transient storage at the
+				// end of the program must be those of the run in which the reverted parts never happened
+				gq := globalObs()
+				ga, gr := (&execCtx{s: cx.s}).ops(gq), (&execCtx{s: rc.s}).ops(gq)
+				gok := true
+				for i := range gq {
+					if ga[i] != gr[i] {
+						gok = false
+						res.Violate("C04/continuation:"+gq[i].K, fmt.Sprintf("at the end of the program %s answers %s, in the reference replay of the surviving operations %s", gq[i].coq(), ga[i], gr[i]),
+							map[string]interface{}{"p002": p002, "start": coqDump(start), "program": ptxt, "reference_program": coqItems(ref)})
+					}
+				}
+				if gok {
+					res.Count(class+"/continuation-globals-equal", ptxt+"/g", muts > 0)
+				} else {
+					res.Count(class+"/continuation-globals-differ", ptxt+"/g", muts > 0)
+				}
+			}
 			ir, cr, d, e := finalise(cx, adb, del)
 			if e != nil {
 				res.Violate("C04/panic:finalise", fmt.Sprint(e), ptxt)
@@ -807,12 +855,6 @@ func main() {
 			fin[di] = d
 			if ir != cr {
 				res.Violate("C04/commit-differs-from-intermediate-root", fmt.Sprintf("IntermediateRoot(%v)=%s Commit(%v)=%s", del, ir.Hex(), del, cr.Hex()), ptxt)
-			}
-			rc, rp := execute(root0, adb, ref, false)
-			if rp != nil || rc.diverged != "" {
-				res.Violate("C04/reference-replay-diverged", fmt.Sprint(rp, rc.diverged), ptxt)
-				bad = true
-				break
 			}
 			rir, _, rd, e2 := finalise(rc, adb, del)
 			if e2 != nil {
@@ -895,9 +937,13 @@ func classifyRoot(got, ref, start map[int]leaf, del, p002 bool, f progFacts) (st
 			if r.exists {
 				x = r
 			}
-			if len(x.store) > 0 {
+			switch {
+			case len(x.store) > 0:
 				key = "C04/root-after-revert:empty-ignores-committed-storage"
-			} else {
+			case !g.exists && r.exists && start[a].exists && emptyish(start[a]) && len(start[a].store) == 0:
+				// a committed empty account that the reverted part wrote to: its dirty mark survives the revert
+				key = "C04/root-after-revert:dirty-mark-survives-revert"
+			default:
 				key = "C04/root-after-revert:empty-counts-cache-entries"
 			}
 		case !p002 && a == tokenID:
